@@ -28,14 +28,21 @@ RULE = ('solution histories in polar form (magnitudes 2^k or k/4; phases k/odd t
         'cal channels; (G) gain histories with the INVALID_GAIN placeholder, NaN solutions, 1 or several channels, '
         'optional per-dump target sequence (self-cal); (F) flux tables with valid/NaN/zero/negative fluxes, aliases, '
         'overrides, disabled; (S) multi-part products through a real SensorCache with missing parts / missing '
-        'timestamps per part and several substreams; (E) the registered Calibration/Corrections sensors end to end; '
-        '(N) _normalise_cal_products exhaustively over <= 2 streams x all request forms.  A case is non-trivial when it '
-        'has >= 2 valid solutions (ci/B/G), >= 1 missing piece (S), or a non-empty request (N); distinct by its full '
-        'canonical input.')
+        'timestamps per part and several substreams; (E) the registered Calibration/Corrections sensors end to end, the '
+        'calculator chosen by the model dispatch table; (N) _normalise_cal_products exhaustively over <= 2 streams x all '
+        'request forms; (P0) calc_correction on injected correction sensors: 1-7 products of 3 streams x 5 types, with '
+        'duplicates, each complete / absent / lacking some data inputs, skip on/off; (P1) requests (38 fixed forms + random '
+        'lists of streams / types / stream.type) on l1 / l2 streams registered by add_applycal_sensors from raw solutions '
+        '(1-2 substreams, a substream lacking a product, cal antennas a subset of the data antennas, missing spectral '
+        'attributes); (O) whole VisibilityDataV4 data sets: 0-2 cal and 0-2 imager streams (0-2 targets) in telstate, '
+        'archived or not, in any order, 6 requests each; (T) 2-3 data sets opened one after the other and kept open.  '
+        'B, G and E outputs are compared with the documented-decision spec and with the source-following model.  A case '
+        'is non-trivial when it has >= 2 valid solutions (ci/B/G), >= 1 missing piece (S), a non-empty request (N), or '
+        'some but not all expanded products present (P0/P1/O); distinct by its full canonical input.')
 ASSUMPTIONS = [
     'the ONE tolerance: finite complex outputs are compared with |impl - model| <= 8 * 2^-23 * |model| (8 ulp of '
     'complex64), needed because cos/sin/angle/sqrt are computed in floating point (cos(pi/2) is not 0); '
-    'NaN-ness, events, lengths and names are compared exactly',
+    'NaN-ness, events, lengths, names and product lists are compared exactly',
     'consecutive valid phases never differ by exactly half a turn (mod 1): np.unwrap decides that case on rounding '
     'noise of np.angle',
     'complex64 solutions are generated with unwrapped phase excursions below 1 turn (np.angle of complex64 is float32, '
@@ -43,6 +50,11 @@ ASSUMPTIONS = [
     'magnitudes are non-zero and finite; frequencies / dump indices are exactly representable; timestamps of cal '
     'product samples coincide with dump mid-times (event placement itself is property C10)',
     'katpoint.Target(name | alias, radec, ...) exposes .name and .aliases',
+    'data sets have at least one data input; the self-cal substreams of one imager stream share antennas, polarisations '
+    'and channel count; solutions of different substreams have different timestamps',
+    'harness SensorCaches are built with their own virtual={} (the default argument of SensorCache is one shared dict); '
+    'every `opened` case first drops applycal templates left in visdatav4.VIRTUAL_SENSORS by earlier data sets (no-op '
+    'with the fix of finding C14-F1) - what data sets do to each other is checked by the two_sets stream',
 ]
 
 TOL = 8 * 2.0 ** -23
@@ -690,7 +702,7 @@ def build_cache(case):
                 vals = [block([None if v is None else (Fr(v[0]), Fr(v[1])) for v in s[1]], idx, dtype, 3 + int(pn))
                         for s in samples]
             cache['%s_product_%s%s' % (sname, case['ptype'], pn if case['n_parts'] else '')] = raw_sensor(ts, vals)
-    sc = SensorCache(cache, timestamps=np.arange(N, dtype=float), dump_period=1., props=SENSOR_PROPS)
+    sc = SensorCache(cache, timestamps=np.arange(N, dtype=float), dump_period=1., props=SENSOR_PROPS, virtual={})
     nchan = case['cal_chans']
     attrs = dict(ATTRS0, center_freq=float(case['cal_centre']), bandwidth=float(nchan * case['cal_width']),
                  n_chans=nchan)
